@@ -701,7 +701,22 @@ func deriveStore(rng *RNG, T *Config, opt genOpt) *Config {
 		}
 	}
 	if opt.emptyGroup && len(D.Groups) > 0 {
-		D.Groups[rng.Intn(len(D.Groups))].Addrs = nil
+		// prefer a group some device rule refers to (only those are looked at by sortRules)
+		var used []int
+		for gi, g := range D.Groups {
+			for _, p := range D.Policies {
+				for _, r := range p.Rules {
+					if r.Src == gpath(g.Id) || r.Dst == gpath(g.Id) {
+						used = append(used, gi)
+					}
+				}
+			}
+		}
+		if len(used) > 0 {
+			D.Groups[used[rng.Intn(len(used))]].Addrs = nil
+		} else {
+			D.Groups[rng.Intn(len(D.Groups))].Addrs = nil
+		}
 	}
 	// objects outside Netspoc's scope
 	for _, id := range extGroups {
